@@ -1,4 +1,5 @@
 import BeyondVerif.Model.JplF
+import BeyondVerif.Model.SolarSystemF
 import BeyondVerif.Drv.Util
 namespace BeyondVerif.Drv.C18
 open BeyondVerif BeyondVerif.Drv BeyondVerif.F BeyondVerif.F.Jpl
@@ -33,7 +34,9 @@ def showRes : Res → String
 /-- `spk <orbit|offset> <a> <b> <npairs> <c-t>… <6·npairs floats>`:
     orbit  = `jpl.get_orbit(a, date).copy(frame=b)`;
     offset = zero state vector in the frame of a, `.copy(frame=b)`.
-    Segment values are jplephem's raw outputs (km, km/day) at the TDB date. -/
+    Segment values are jplephem's raw outputs (km, km/day) at the TDB date.
+    `sun <tm> <t0> <tp>` / `moon <tm> <t0> <tp>`: `SunPropagator.propagate` / `MoonPropagator.propagate` given the
+    Julian centuries of date - step, date, date + step → six floats. -/
 def handle : List String → Option String
   | "spk" :: op :: a :: b :: n :: rest => some <|
     match a.toNat?, b.toNat?, n.toNat? with
@@ -49,6 +52,14 @@ def handle : List String → Option String
         | none => "bad-op"
       | none => "bad-op"
     | _, _, _ => "bad-op"
+  | "sun" :: rest => some <|
+    match takeFloats 3 rest with
+    | some ([tm, t0, tp], _) => fsToStr (Solar.sunState tm t0 tp)
+    | _ => "bad-op"
+  | "moon" :: rest => some <|
+    match takeFloats 3 rest with
+    | some ([tm, t0, tp], _) => fsToStr (Solar.moonState tm t0 tp)
+    | _ => "bad-op"
   | _ => none
 
 end BeyondVerif.Drv.C18
